@@ -105,6 +105,27 @@ def main():
         finally:
             sh(f"git -C /repo worktree remove --force {wt2}")
             shutil.rmtree(edir, ignore_errors=True)
+    if ok and "--escalate" in sys.argv and tier == "quick" and not any(v["exit"] == 1 and v["violations"] for v in results.values()):
+        # missed by the quick tier: try the thorough tier of the property's own check
+        wt2 = f"/tmp/wt/_run_{prop}_{label}"
+        sh(f"git -C /repo worktree remove --force {wt2}")
+        sh(f"git -C /repo worktree add --detach {wt2} HEAD")
+        sh(f"git -C {wt2} apply {os.path.join(src, 'patch.diff')}")
+        rdir = os.path.join(dest, "replays")
+        edir = os.path.join(dest, "evidence_with_patch")
+        os.makedirs(rdir, exist_ok=True)
+        try:
+            t0 = time.time()
+            rc, out = sh(f"./check {prop} thorough", cwd=VERIF, timeout=6 * 3600,
+                         env={"CGV_REPO": wt2, "CGV_REPLAY_DIR": rdir, "CGV_EVIDENCE_DIR": edir})
+            viol = [ln for ln in out.splitlines() if ln.startswith("VIOLATION")]
+            detail = [ln for ln in out.splitlines() if ln.startswith("  bucket:")]
+            harness = [ln for ln in out.splitlines() if ln.startswith("HARNESS-ERROR")]
+            results[prop + ":thorough"] = {"exit": rc, "violations": viol, "buckets": detail, "harness_error": harness, "wall_s": round(time.time() - t0, 1)}
+            print(prop, "thorough", "exit", rc, viol[:3], detail[:3], harness[:1])
+        finally:
+            sh(f"git -C /repo worktree remove --force {wt2}")
+            shutil.rmtree(edir, ignore_errors=True)
     os.makedirs(dest, exist_ok=True)
     for f in os.listdir(src):
         s = os.path.join(src, f)
@@ -112,6 +133,11 @@ def main():
             shutil.copy(s, os.path.join(dest, f))
         elif os.path.isdir(s) and f != "__pycache__":
             shutil.copytree(s, os.path.join(dest, f), dirs_exist_ok=True, ignore=shutil.ignore_patterns("__pycache__"))
+    try:
+        with open(os.path.join(VERIF, "tools", "seeded_summaries.json")) as f:
+            meta["summary"] = json.load(f).get(f"{prop}-{label}", "")
+    except Exception:  # noqa: BLE001
+        meta["summary"] = ""
     meta["checks"] = results
     meta["tier"] = tier
     meta["detected_by"] = [k for k, v in results.items() if v["exit"] == 1 and v["violations"]]
